@@ -320,7 +320,24 @@ def oracle_builder_names(rng):
         probs.append(('all_atom_kinds', mixed))
         probs.append(('sage_feasibility', ss.sage_feasibility(f + 10)))
         probs.append(('sage_multiplier_search', ss.sage_multiplier_search(f + 10, level=1)))
+        # repeated calls on the SAME function object (polynomials cache their signomial representative and its side constraints), and a
+        # user's list of additional constraints handed over twice: every Problem has its own, uniquely named Variables
+        pf = x[0] ** 4 + x[1] ** 4 - x[0] * x[1] ** 2 + 2
+        probs.append(('poly sage_feasibility, first call', sp.sage_feasibility(pf)))
+        probs.append(('poly sage_feasibility, second call on the same Polynomial', sp.sage_feasibility(pf)))
+        probs.append(('poly sage_multiplier_search after sage_feasibility on the same Polynomial', sp.sage_multiplier_search(pf, level=1)))
+        probs.append(('poly_relaxation (primal) after sage_feasibility on the same Polynomial', sp.poly_relaxation(pf, form='primal')))
+        tt = cl.Variable(shape=(1,), name='user_extra')
+        user_cons = [tt >= 1]
+        n_user = len(user_cons)
+        probs.append(('sig sage_feasibility with additional_cons, first call', ss.sage_feasibility(f + 10, additional_cons=user_cons)))
+        probs.append(('sig sage_feasibility with additional_cons, second call', ss.sage_feasibility(f + 10, additional_cons=user_cons)))
+        if len(user_cons) != n_user:
+            return 'sage_feasibility changed the caller\'s list of additional constraints (%d -> %d entries)' % (n_user, len(user_cons))
     for name, prob in probs:
+        ncons = [type(c_).__name__ for c_ in prob.constraints]
+        if 'second call' in name and ncons.count('PrimalSageCone') != 1:
+            return '%s: the Problem holds %d primal SAGE constraints (one was asked for)' % (name, ncons.count('PrimalSageCone'))
         seen_ids = {}
         for v in prob.all_variables:
             ids_ = [int(i) for i in np.asarray(v.scalar_variable_ids).ravel().tolist()]
